@@ -127,6 +127,7 @@ type Interp struct {
 	accesses []Access
 	snap     *MState
 	lockHist map[string]int
+	lockHookMin int
 	entry     string
 	knownSpecs []KnownSpec
 	knownCond map[string]*Term
@@ -1970,18 +1971,24 @@ func (a *Act) callFunc(fv FuncV, args []Value) Value {
 		in.stubs[name]++
 		return res
 	}
-	if fv.fn.Blocks == nil {
-		panic(unsupported("no body: " + name))
-	}
 	if fv.fn.Name() == "init" && fv.fn.Pkg != nil && a.fn.Name() == "init" && fv.fn.Pkg != a.fn.Pkg {
 		return nil // initialisers of imported packages are not executed
+	}
+	if fv.fn.Blocks == nil {
+		panic(unsupported("no body: " + name))
 	}
 	// receiver splitting: a method called on a union of objects runs once per object under its guard
 	if fv.fn.Signature.Recv() != nil && len(args) > 0 {
 		if p, ok := args[0].(PtrV); ok && len(p.alts) > 1 {
-			a.mayPanic(p.nilG, "nil receiver")
 			var guards []*Term
 			var runs []func() Value
+			if !p.nilG.IsFalse() {
+				// a nil pointer receiver is legal: the method body decides (generated getters test for it)
+				guards = append(guards, p.nilG)
+				runs = append(runs, func() Value {
+					return a.callFunc(fv, append([]Value{nilPtr()}, args[1:]...))
+				})
+			}
 			for _, al := range p.alts {
 				al := al
 				guards = append(guards, al.g)
@@ -2071,7 +2078,88 @@ func (a *Act) sliceElem(s SliceV, i int) Value {
 	return res
 }
 
+// appendInPlace is Go's append with its aliasing behaviour (flag "appendCaps"): when the result fits
+// into cap(x) the elements are written into x's backing array and the result shares it; otherwise a
+// new array is allocated whose capacity is ANY value in [needed, needed+appendSlack] (the language
+// does not fix the growth policy).  The default appendOp below always copies.
+const appendSlack = 6
+
+func (a *Act) appendInPlace(x, y SliceV) Value {
+	in := a.in
+	ma, mb := a.sliceBounds(x), a.sliceBounds(y)
+	if x.len.IsConst() {
+		ma = int(x.len.val)
+	}
+	if y.len.IsConst() {
+		mb = int(y.len.val)
+	}
+	n := ma + mb
+	if n == 0 {
+		return x
+	}
+	newLen := BvBin("bvadd", x.len, y.len)
+	fits := BvCmp("bvule", newLen, x.cap)
+	if len(x.arr.alts) == 0 {
+		fits = False
+	}
+	var proto Value
+	if ma > 0 {
+		proto = a.sliceElem(x, 0)
+	} else {
+		proto = a.sliceElem(y, 0)
+	}
+	// the grown copy (built first: it reads x before the in-place writes)
+	arr := ArrayV{e: make([]Value, x.off+n+appendSlack)}
+	for i := range arr.e {
+		arr.e[i] = zeroLike(proto)
+	}
+	for i := 0; i < n; i++ {
+		var v Value = zeroLike(proto)
+		for j := 0; j < mb; j++ {
+			if i-j >= 0 && i-j <= ma {
+				v = iteVal(Eq(x.len, BV(64, uint64(i-j))), a.sliceElem(y, j), v)
+			}
+		}
+		if i < ma {
+			v = iteVal(BvCmp("bvugt", x.len, BV(64, uint64(i))), a.sliceElem(x, i), v)
+		}
+		arr.e[x.off+i] = v
+	}
+	ys := make([]Value, mb)
+	for j := range ys {
+		ys[j] = a.sliceElem(y, j)
+	}
+	// in-place writes into every backing array x may have
+	for _, al := range x.arr.alts {
+		root := a.st.heap[al.obj].v
+		old := navigate(root, al.path).(ArrayV)
+		upd := ArrayV{e: append([]Value{}, old.e...)}
+		for i := 0; i <= ma; i++ {
+			for j := 0; j < mb; j++ {
+				p := x.off + i + j
+				if p >= len(upd.e) {
+					continue
+				}
+				c := And(fits, al.g, Eq(x.len, BV(64, uint64(i))), BvCmp("bvugt", y.len, BV(64, uint64(j))))
+				upd.e[p] = iteVal(c, ys[j], upd.e[p])
+			}
+		}
+		a.st.heap[al.obj] = nv(update(root, al.path, upd))
+	}
+	capv := in.fresh("appendcap", BVS(64))
+	in.solver.Assert(And(BvCmp("bvuge", capv, newLen), BvCmp("bvule", capv, BvBin("bvadd", newLen, BV(64, appendSlack)))))
+	res := PtrV{nilG: And(x.arr.nilG, fits)}
+	for _, al := range x.arr.alts {
+		res.alts = append(res.alts, PtrAlt{g: And(al.g, fits), obj: al.obj, path: al.path})
+	}
+	res.alts = append(res.alts, PtrAlt{g: Not(fits), obj: a.alloc(arr)})
+	return SliceV{arr: res, off: x.off, len: newLen, cap: Ite(fits, x.cap, capv)}
+}
+
 func (a *Act) appendOp(x, y SliceV) Value {
+	if a.in.flags["appendCaps"] {
+		return a.appendInPlace(x, y)
+	}
 	ma, mb := a.sliceBounds(x), a.sliceBounds(y)
 	if x.len.IsConst() {
 		ma = int(x.len.val)
